@@ -805,3 +805,86 @@ func TestC04AliasShapes(t *testing.T) {
 		}
 	})
 }
+
+// TestC01Hammer: the steady state of a server - many goroutines ask one
+// provider for its singletons over and over, from the provider and from their
+// request scopes. Every answer is the one instance of the identity asked for.
+func TestC01Hammer(t *testing.T) {
+	col := evid.New("C01", "many-readers", "singleton-rich buildable configurations; 2 scopes; 4-8 free-running goroutines each resolve a generated list of 2-6 singleton identities (by type, key or group; from the provider or a scope) 150 times over, then everything is resolved once more sequentially; oracle = the C01 ledger oracle on every answer (the value returned is the one instance the owning registration made, each constructor ran once) and no error on a registered identity; non-trivial = >=3 distinct singleton identities were contended")
+	defer col.Flush()
+	rapid.Check(t, func(rt *rapid.T) {
+		o := kit.FullOpts()
+		o.MinRegs = 3
+		o.Lifetimes = []int{kit.Singleton, kit.Singleton, kit.Singleton, kit.Scoped, kit.Transient}
+		cfg := kit.GenConfig(rt, o)
+		x, err := startRun(cfg, nil)
+		if err != nil {
+			rt.Fatal(err)
+		}
+		if x.Build.Err != nil || x.Build.Panic != nil {
+			col.Case(false, cfg.String(), nil, "build-failed(not judged here)")
+			return
+		}
+		var ids []kit.Ident
+		for _, id := range noVoid(identPool(x.M, false)) {
+			if id.Group != "" {
+				all := len(x.M.Members(id.T, id.Group)) > 0
+				for _, ow := range x.M.Members(id.T, id.Group) {
+					if x.M.Regs[ow.Reg].Life != kit.Singleton {
+						all = false
+					}
+				}
+				if all {
+					ids = append(ids, id)
+				}
+			} else if ow, ok := x.M.Owner(id); ok && x.M.Regs[ow.Reg].Life == kit.Singleton && !x.M.NilOutput(id) {
+				ids = append(ids, id)
+			}
+		}
+		if len(ids) < 2 {
+			col.Case(false, cfg.String(), nil, "fewer-than-2-singleton-identities")
+			return
+		}
+		x.exec(Op{Kind: "create", Scope: 0, Ctx: 0})
+		x.exec(Op{Kind: "create", Scope: 0, Ctx: 1})
+		live := x.R.LiveScopes()
+		n := rapid.IntRange(4, 8).Draw(rt, "goroutines")
+		jobs := make([][]batchJob, n)
+		used := map[kit.Ident]bool{}
+		for g := range jobs {
+			var own []batchJob
+			for j := rapid.IntRange(2, 6).Draw(rt, "jobs"); j > 0; j-- {
+				id := rapid.SampledFrom(ids).Draw(rt, "id")
+				used[id] = true
+				own = append(own, batchJob{rapid.SampledFrom(live).Draw(rt, "tag"), id})
+			}
+			for rep := 0; rep < 150; rep++ {
+				jobs[g] = append(jobs[g], own...)
+			}
+		}
+		x.exec(Op{Kind: "batch", Jobs: jobs})
+		for _, id := range ids {
+			for _, tag := range live {
+				x.R.Resolve(tag, id)
+			}
+		}
+		x.R.CloseProvider()
+		canon := fmt.Sprintf("%s || %d goroutines x 150 rounds over %d singleton identities", cfg, n, len(used))
+		col.Case(len(used) >= 3, canon, canon, fmt.Sprintf("identities=%d", min(len(used), 6)))
+		obs, _ := x.observations()
+		f := x.unexpectedErrors("C01")
+		if f != nil && f.Prop != "C01" {
+			f = nil
+		}
+		if f == nil {
+			f = x.checkC01(obs)
+		}
+		if f != nil {
+			if isKnown(f) {
+				col.Excluded()
+				return
+			}
+			rt.Fatalf("VIOLATION %s\n%s", f, canon)
+		}
+	})
+}
